@@ -392,6 +392,57 @@ pub fn run(tier: Tier) -> Report {
     } else {
         do_world("sorenson-motion-depth3", &motion_world(crate::evidence::seed()), Some(3), true);
     }
+    // long single history: temporal references running through the 8-bit wrap several times, with
+    // disposable pictures, rejected inputs and clean-ups interleaved; the store must stay bounded
+    {
+        let n = if tier.thorough() { 3000 } else { 700 };
+        let mut d = Dec::new(1);
+        let mut stats = CmpStats::default();
+        let mut mlast: Option<(u16, &'static str)>;
+        let w = closed_world(true, &[0], 1);
+        let bad: Vec<&GOp> = w.ops.iter().filter(|o| matches!(o, GOp::Bad { .. })).collect();
+        for i in 0..n {
+            let tr = (i % 256) as u8;
+            let kind = if i == 0 || i % 97 == 0 { 0u8 } else if i % 3 == 1 { 2 } else { 1 };
+            let c = (i / 7) % 3;
+            let mbs = if kind == 0 { vec![flat_mb(c), flat_mb(c)] } else if i % 2 == 0 { vec![flat_mb(c), Mb::NotCoded] } else { vec![Mb::NotCoded, flat_mb(c)] };
+            let pic = Pic { hdr: shdr(32, 16, kind, tr, 5, 0), mbs };
+            if i % 13 == 5 {
+                let b = match bad[i % bad.len()] {
+                    GOp::Bad { bytes, .. } => bytes.clone(),
+                    _ => vec![],
+                };
+                let _ = decode_bytes(&mut d.st, &b);
+            }
+            if i % 29 == 11 {
+                d.st.cleanup_buffers();
+            }
+            match d.step(&pic, "C04", &mut stats) {
+                Err(f) => {
+                    rep.violation(&format!("{}[long-history]", f.sig), format!("picture {i} of a long history: {}", f.what), json!({"kind": "long-history", "index": i}));
+                    break;
+                }
+                Ok(None) => {
+                    rep.violation("C04/long-history-rejected", format!("picture {i} (type {kind}, tr {tr}) of a long history rejected"), json!({"kind": "long-history", "index": i}));
+                    break;
+                }
+                Ok(Some(_)) => mlast = Some((tr as u16, ["IFrame", "PFrame", "DisposablePFrame"][kind as usize])),
+            }
+            let s = last_snap(&d.st).unwrap();
+            if Some((s.tr, s.ptype.as_str())) != mlast.map(|m| (m.0, m.1)) {
+                rep.violation("C04/long-history-last-picture", format!("after picture {i}: last picture reports tr={} type={}", s.tr, s.ptype), json!({"kind": "long-history", "index": i}));
+                break;
+            }
+            let stored = d.st.verif_state().4.len();
+            if stored > 2 {
+                rep.violation("C04/picture-store-grows", format!("after picture {i} the decoder holds {stored} pictures (only the most recent and the reference are needed)"), json!({"kind": "long-history", "index": i}));
+                break;
+            }
+        }
+        rep.add_transitions(n as u64);
+        rep.add_states(n as u64);
+        rep.extra("long_history_pictures", json!(n));
+    }
     rep.extra("graphs", json!(summary));
     // the motion graph is depth-bounded by construction; the closed graphs reach a fixpoint
     *rep.exhaustive.lock().unwrap() = true;
